@@ -1,3 +1,32 @@
-From Flodym Require Import Base.ND.
-Theorem placeholder : True. Proof. exact I. Qed.
-Print Assumptions placeholder.
+(* C13 — arrays always have the shape of their dimensions; failed calls change nothing.
+   Statements only; proofs in Proofs/HeapProofs.v. *)
+From Coq Require Import List.
+Import ListNotations.
+From Flodym Require Import Np.Einsum Model.Dims Model.Instances Model.Heap Proofs.HeapProofs.
+
+(* In every state reachable by ANY sequence of operations of the alphabet (constructors with right
+   and wrong shapes, copy, full_like, arithmetic, reductions, casts, cumsum, slice reads,
+   assignments through [] of arrays / numbers / ndarrays, set_values, raw fills — including all the
+   ill-formed calls, which raise), every array object has values of the shape of its dimensions,
+   pairwise distinct dimension letters and as many entries as the shape demands. *)
+Theorem C13_invariant_in_every_reachable_state : forall ops : list hop, Inv (run current ops).
+Proof. exact inv_reachable. Qed.
+Print Assumptions C13_invariant_in_every_reachable_state.
+
+Theorem C13_invariant_preserved_by_every_step : forall h o, Inv h -> Inv (fst (step current h o)).
+Proof. exact inv_step. Qed.
+Print Assumptions C13_invariant_preserved_by_every_step.
+
+(* An operation that raises leaves the whole heap — every buffer and every array — as it was. *)
+Theorem C13_raising_call_changes_nothing :
+  forall h o, snd (step current h o) = Raised -> fst (step current h o) = h.
+Proof. exact raise_frame. Qed.
+Print Assumptions C13_raising_call_changes_nothing.
+
+(* non-vacuity: a history with a wrong-shaped constructor call, a valid one, a failing set_values *)
+Example ex_C13_history :
+  length (arrs (run current
+     [HNew [mk_dim 97 0 [0; 1; 2]] (mk_nd [2] []);
+      HNew [mk_dim 97 0 [0; 1; 2]] (mk_nd [3] [Instances.QO; Instances.QI; Instances.QI]);
+      HSetValues 0 (mk_nd [1; 3] [Instances.QO; Instances.QI; Instances.QI])])) = 1.
+Proof. vm_compute. reflexivity. Qed.
